@@ -29,6 +29,12 @@ def gen(r, n):
     # two stops
     scs.append(dict(u=150, period=1, ta=2, grace=2, leak=0.7, dur=8.5, on_term="ignore",
                     sigs=[(1.5, "TSTP"), (4.5, "CONT"), (6.5, "TSTP"), (9.5, "CONT")]))
+    # the test exits while the run is stopped for the SECOND time (it ignores SIGTSTP): the time spent in the
+    # first stop is not part of its reported duration either
+    scs.append(dict(u=150, period=20, ta=None, grace=2, leak=0.7, dur=6.5, on_term="exit", stops=False,
+                    sigs=[(1.5, "TSTP"), (3.5, "CONT"), (4.5, "TSTP"), (8.5, "CONT")]))
+    scs.append(dict(u=150, period=20, ta=None, grace=2, leak=0.7, dur=5.5, on_term="exit", stops=False,
+                    sigs=[(0.5, "TSTP"), (3.5, "CONT"), (4.5, "TSTP"), (7.5, "CONT")], direct_spawn=True))
     # test exits while stopped (the F11 scenario): it ignores SIGTSTP
     scs.append(dict(u=150, period=20, ta=None, grace=2, leak=0.7, dur=3.5, on_term="exit", stops=False,
                     sigs=[(1.5, "TSTP"), (7.5, "CONT")]))
